@@ -195,7 +195,7 @@ def gate(kind, fn):
         call.go.clear()
         best = None
         last_exc = None
-        for _try in range(3):
+        for _try in range(5):
             t0 = time.time()
             try:
                 r = fn()
@@ -251,6 +251,15 @@ class PCursor:
             return self
         gate(k, lambda: self._c.execute(sql, params))
         self._row = None
+        return self
+
+    def executescript(self, script):
+        """sqlite3 semantics: COMMIT a pending transaction first, then run the statements one by one in autocommit"""
+        conn = self._c.connection
+        if conn.in_transaction:
+            gate("commit", conn.commit)
+        for stmt in [x.strip() for x in script.split(";") if x.strip()]:
+            gate(classify(stmt), lambda st=stmt: self._c.execute(st))
         return self
 
     def fetchone(self):
@@ -396,6 +405,17 @@ def run_sched(case):
                     return gate("fs", lambda: real_mkdir(self, *a, **k))
                 return real_mkdir(self, *a, **k)
             pathlib.Path.exists, pathlib.Path.mkdir = g_exists, g_mkdir
+        # ... and around the grammar run of _parse(): a thread can be held just before / just after it
+        real_sd = P.ModelicaParser.stored_definition
+        if fs_gates:
+            def g_sd(self, *a, **k):
+                if CTL is not None and threading.get_ident() in CTL.calls:
+                    gate("fs", lambda: None)
+                    r = real_sd(self, *a, **k)
+                    gate("fs", lambda: None)
+                    return r
+                return real_sd(self, *a, **k)
+            P.ModelicaParser.stored_definition = g_sd
         ino0 = os.stat(db).st_ino if os.path.exists(db) else None
         calls = []
         threads = []
@@ -429,7 +449,7 @@ def run_sched(case):
             threads.append(th)
             th.start()
         for call in calls:
-            call.at_gate.wait(30)
+            call.at_gate.wait(60 * load_scale())
         effective = []
 
         def one(cid):
@@ -444,8 +464,8 @@ def run_sched(case):
             n = len(CTL.trace)
             call.at_gate.clear()
             call.go.set()
-            if not call.at_gate.wait(30):
-                raise RuntimeError("call %d did not come back" % cid)
+            if not call.at_gate.wait(60 * load_scale()):
+                raise Inconclusive("call %d did not reach its next statement within the load-scaled deadline" % cid)
             if len(CTL.trace) == n:
                 CTL.trace.append([cid, "none", "idle"])
 
@@ -464,6 +484,7 @@ def run_sched(case):
             th.join(5)
         trace = CTL.trace
         pathlib.Path.exists, pathlib.Path.mkdir = real_exists, real_mkdir
+        P.ModelicaParser.stored_definition = real_sd
         kws = [getattr(c, "kw", None) for c in calls]
         CTL = None
         P.sqlite3 = REAL_SQLITE
@@ -479,6 +500,7 @@ def run_sched(case):
         try:
             import pathlib as _pl
             _pl.Path.exists, _pl.Path.mkdir = real_exists, real_mkdir
+            P.ModelicaParser.stored_definition = real_sd
         except NameError:
             pass
         shutil.rmtree(folder, ignore_errors=True)
@@ -498,7 +520,7 @@ def run_locktable(case):
 
     def attempt(f):
         best = None
-        for _ in range(3):
+        for _ in range(5):
             t0 = time.time()
             try:
                 f()
@@ -567,11 +589,27 @@ def run_locktable(case):
             "subclass": issubclass(sqlite3.OperationalError, sqlite3.DatabaseError)}
 
 
+def load_scale():
+    """deadlines of the harness are scaled by the machine load: a deadline is never an observation"""
+    try:
+        return max(1.0, os.getloadavg()[0] / float(os.cpu_count() or 1))
+    except OSError:
+        return 1.0
+
+
+class Inconclusive(Exception):
+    """a harness deadline expired before the calls produced anything to judge"""
+
+
 # ---- free-running stress ---------------------------------------------------------------------------
-def _stress_worker(folder, texts, order, bar, out, i):
+def _stress_worker(folder, texts, order, bar, out, i, wait):
     res = []
     try:
-        bar.wait(30)
+        try:
+            bar.wait(wait)
+        except threading.BrokenBarrierError:
+            res = "barrier"          # not released together with the others: nothing was run
+            return
         for ti in order:
             t0 = time.time()
             try:
@@ -584,9 +622,22 @@ def _stress_worker(folder, texts, order, bar, out, i):
 
 
 def run_stress(case):
+    """up to three attempts; an attempt in which some worker produced no complete call record (barrier broken,
+    no report within the load-scaled deadline) is INCONCLUSIVE and is not judged"""
+    why = None
+    for _attempt in range(3):
+        r = _run_stress_once(case)
+        why = r.get("inconclusive")
+        if not why:
+            return r
+    return {"inconclusive": why, "attempts": 3}
+
+
+def _run_stress_once(case):
     texts = case["texts"]
     want = [fresh(t) for t in texts]
     folder = tempfile.mkdtemp(prefix="c02s_")
+    scale = load_scale()
     try:
         db = prepare(folder, case["kind"], texts, case.get("pre", []))
         if hasattr(P.parse, "initialized_dbs"):
@@ -596,31 +647,49 @@ def run_stress(case):
             ctx = mp.get_context("fork")
             bar = ctx.Barrier(n)
             out = ctx.Queue()
-            ws = [ctx.Process(target=_stress_worker, args=(folder, texts, case["orders"][i], bar, out, i)) for i in range(n)]
+            ws = [ctx.Process(target=_stress_worker, args=(folder, texts, case["orders"][i], bar, out, i, 30 * scale))
+                  for i in range(n)]
         else:
             import queue
             bar = threading.Barrier(n)
             out = queue.Queue()
-            ws = [threading.Thread(target=_stress_worker, args=(folder, texts, case["orders"][i], bar, out, i)) for i in range(n)]
+            ws = [threading.Thread(target=_stress_worker, args=(folder, texts, case["orders"][i], bar, out, i, 30 * scale))
+                  for i in range(n)]
         for w in ws:
             w.start()
         got = {}
         for _ in ws:
             try:
-                i, res = out.get(timeout=120)
+                i, res = out.get(timeout=180 * scale)
                 got[i] = res
             except Exception:  # noqa
                 break
         for w in ws:
-            w.join(10)
-        return {"results": [got.get(i) for i in range(n)], "want": want, "final": final_state(db, texts)}
+            w.join(10 * scale)
+        if case["procs"]:
+            for w in ws:
+                if w.is_alive():
+                    w.terminate()
+        results = [got.get(i) for i in range(n)]
+        bad = [i for i, rs in enumerate(results)
+               if rs is None or rs == "barrier" or len(rs) != len(case["orders"][i])]
+        if bad:
+            return {"inconclusive": "workers %s produced no complete call record (%s) at load scale %.1f"
+                                    % (bad[:6], sorted({str(results[i])[:10] for i in bad})[:3], scale)}
+        return {"results": results, "want": want, "final": final_state(db, texts)}
     finally:
         shutil.rmtree(folder, ignore_errors=True)
 
 
 def handler(case):
     if case["mode"] == "sched":
-        return run_sched(case)
+        why = None
+        for _attempt in range(3):
+            try:
+                return run_sched(case)
+            except Inconclusive as e:
+                why = str(e)
+        return {"inconclusive": why, "attempts": 3}
     if case["mode"] == "locktable":
         return run_locktable(case)
     if case["mode"] == "stress":
